@@ -293,6 +293,15 @@ def run(ctx):
   ctx.check(ok, "FIN-range", f"{pf.qualname}|regions occupy exactly the configured safe area", ctx.where(pf.module, pf.node),
             "origin = safe_area %, extent = 100 - 2 * safe_area %, all from self.config.safe_area",
             f"the region origin / extent are no longer `self.config.safe_area` and `100 - 2 * self.config.safe_area` percent: {[short(u, 50) for u in uses][:4]}")
+  shape.check_independent_updates(ctx, ix.func("ttconv.filters.doc.lcd:LCDDocFilter.process"))
+  fbase = [ix.cls("ttconv.filters.document_filter:DocumentFilter"), ix.cls("ttconv.filters.isd_filter:ISDFilter")]
+  fcls = [c for b in fbase for c in ix.all_subclasses(b)] + [c for c in ix.classes.values() if c.module.name in ("ttconv.filters.supported_style_properties", "ttconv.filters.remove_animations")]
+  shape.check_stateless_instances(ctx, {c.qualname: c for c in fcls}.values(),
+                                  allowed={"self._has_removed_animations": "a report flag of RemoveAnimationFilter; LCDDocFilter.process creates a fresh instance per call (checked below)"})
+  pf_ = ix.func("ttconv.filters.doc.lcd:LCDDocFilter.process")
+  ctx.check(any(isinstance(n_, ast.Assign) and isinstance(n_.value, ast.Call) and unparse(n_.value.func).endswith("RemoveAnimationFilter") for n_ in own_nodes(pf_.node)), "STATE-instance",
+            f"{pf_.qualname}|the animation filter is created per call", ctx.where(pf_.module, pf_.node), "RemoveAnimationFilter() inside process", "LCDDocFilter.process no longer creates its RemoveAnimationFilter per call: its report flag leaks between documents")
+  ctx.ok("STATE-instance", f"{len(fcls)} filter classes|no method outside the constructor writes instance state", "src/main/python/ttconv/filters", "scanned")
   common.check_history_independence(ctx, common.DOC_FILTERS + ["ttconv.filters.isd_filter"])
 
 
